@@ -11,7 +11,7 @@
    (C13_key_order, Proofs/KeyOrder.v), for registries without custom recognisers and savorize hooks (with hooks: tie). *)
 From Coq Require Import NArith ZArith List Bool String Permutation.
 Import ListNotations.
-From Y Require Import Prelude Node Tables NodeOps Types Recognize Loader Hooks Spec Polymorph Invariance Marks KeyOrder Unrelated Unrelated2.
+From Y Require Import Prelude Node Tables NodeOps Types Recognize Loader Hooks Spec Polymorph Invariance Marks KeyOrder Unrelated Unrelated2 UnionOrder.
 Open Scope N_scope.
 
 (* Marks are never consulted: two node trees that differ only in their marks (eqm) load to the same value or fail with
@@ -52,6 +52,11 @@ Proof.
   destruct doc; rewrite (process_list_origin o reg _ _ k k' t Hk Hk'); reflexivity.
 Qed.
 
+Theorem C13_load_mapping_annotations : forall o reg doc k k' kt vt, is_map_origin k = true -> is_map_origin k' = true ->
+  load o reg doc (TDict k kt vt) = load o reg doc (TDict k' kt vt).
+Proof. exact UnionOrder.load_dict_origin. Qed.
+Print Assumptions C13_load_mapping_annotations.
+
 (* Adding bool_union_fix to a Union that contains bool: the same members are recognised, and the same single member. *)
 Theorem C13_bool_union_fix : forall o reg f n ts m tys e, In TBool ts ->
   rec_union (recognize o reg (S f) n) ts m = Ok (tys, e) ->
@@ -59,6 +64,16 @@ Theorem C13_bool_union_fix : forall o reg f n ts m tys e, In TBool ts ->
                   (forall t, In t tys <-> In t tys') /\ (forall t, tys = [t] -> tys' = [t]).
 Proof. intros o reg f n ts m tys e. apply boolfix_irrelevant, recognize_boolfix. Qed.
 Print Assumptions C13_bool_union_fix.
+(* ... hence a document that loads at a declared Union containing bool loads to the same value with bool_union_fix added *)
+Theorem C13_load_bool_union_fix : forall o reg doc ts v, In TBool ts ->
+  load o reg doc (TUnion ts) = Ok v -> load o reg doc (TUnion (ts ++ [TBoolFix])) = Ok v.
+Proof. exact UnionOrder.load_boolfix. Qed.
+Print Assumptions C13_load_bool_union_fix.
+(* ... and the members of the declared Union may come in any order (C03_union_order_load) *)
+Theorem C13_load_union_member_order : forall o reg doc ts ts' v, Permutation ts ts' ->
+  (load o reg doc (TUnion ts) = Ok v <-> load o reg doc (TUnion ts') = Ok v).
+Proof. exact UnionOrder.load_union_perm. Qed.
+Print Assumptions C13_load_union_member_order.
 
 (* The order in which the members of a Union are written is irrelevant (shared with C03). *)
 Theorem C13_union_member_order : forall rec ts ts' m tys e, Permutation ts ts' -> rec_union rec ts m = Ok (tys, e) ->
